@@ -17,7 +17,7 @@ def c06(case, f):
     if inv in ("C06.source_table_not_read", "C06.table_graph_disconnected", "C06.table_graph_missing_node") and t:
         feat = _feat(case)
         b = sqlfeat.bare(t)
-        if b in feat["lateral_view_aliases"]:
+        if b in feat["lateral_view_aliases"] or (b in feat["table_function_aliases"] and t.startswith("<default>.")):
             return "KF-11"
         # KF-39: the columns of a scalar sub-query in a select item come back from a nested analysis as (column, qualifier) and the qualifier
         # is looked up in the *outer* query's alias map: an alias, or the bare name of a schema-qualified table, falls through to Table(qualifier)
